@@ -296,7 +296,7 @@ def main(ck):
             cth.join()
             return
         try:
-            pout, _ = pproc.communicate(timeout=900)
+            pout, _ = pproc.communicate(timeout=240)
         except subprocess.TimeoutExpired:
             pproc.kill()
             pout = ""
